@@ -570,8 +570,11 @@ func (ka *ecdheKeyAgreement) processServerKeyExchange(config *Config, clientHell
 
 	var sigType uint8
 	var sigHash crypto.Hash
+	// The SignatureAndHashAlgorithm bytes as they appear on the wire (logging).
+	var wireHash, wireSig uint8
 	if ka.version >= VersionTLS12 {
 		signatureAlgorithm := SignatureScheme(sig[0])<<8 | SignatureScheme(sig[1])
+		wireHash, wireSig = sig[0], sig[1]
 		sig = sig[2:]
 		if len(sig) < 2 {
 			return errServerKeyExchange
@@ -609,8 +612,13 @@ func (ka *ecdheKeyAgreement) processServerKeyExchange(config *Config, clientHell
 	case *signedKeyAgreement:
 		auth.raw = sig
 		auth.valid = ka.verifyError == nil
-		auth.sh.Signature = sigType
-		auth.sh.Hash = uint8(sigHash)
+		if ka.version >= VersionTLS12 {
+			auth.sh.Signature = wireSig
+			auth.sh.Hash = wireHash
+		} else {
+			auth.sh.Signature = sigType
+			auth.sh.Hash = uint8(sigHash)
+		}
 	default:
 		break
 	}
